@@ -247,11 +247,17 @@ fn check_semantics(bytes: &[u8], ops: &[WOp], ui: usize, u: &WUnit, big: bool, p
 fn check_die_or_list(ch: &mut Choices, cx: &mut Ctx) -> R {
     let big = ch.bool();
     let nunits = 1 + ch.below(2);
-    let counts: Vec<usize> = (0..nunits).map(|_| 3 + ch.below(8)).collect();
+    let mut counts: Vec<usize> = (0..nunits).map(|_| 3 + ch.below(8)).collect();
+    // the unit that carries the expression: the first, or the second behind a first unit large enough that unit offsets and
+    // section offsets of its entries need different numbers of LEB128 bytes
+    let ui = if nunits == 2 && ch.chance(100) { 1usize } else { 0 };
+    if ui == 1 {
+        counts[ui] += 20 + ch.below(16);
+    }
     let mut units: Vec<WUnit> = Vec::new();
-    for ui in 0..nunits {
+    for uj in 0..nunits {
         let version = ch.pick(&[4u16, 5, 3, 2, 5]);
-        let n = counts[ui];
+        let n = counts[uj];
         let mut entries = vec![WEntry { parent: 0, tag: 0x11, sibling: false, attrs: vec![], reserved_early: false, never_added: false }];
         for i in 1..n {
             let parent = if ch.chance(170) { 0 } else { ch.below(i) };
@@ -259,27 +265,29 @@ fn check_die_or_list(ch: &mut Choices, cx: &mut Ctx) -> R {
         }
         units.push(WUnit { version, format64: ch.chance(64), address_size: ch.pick(&[8u8, 4]), entries, ranges: vec![], locs: vec![], files: None });
     }
-    let ui = 0usize;
-    let g = Gen { n_entries: counts[0], n_units: nunits, counts: &counts, addr_mask: crate::enc::mask(units[0].address_size) };
+    let g = Gen { n_entries: counts[ui], n_units: nunits, counts: &counts, addr_mask: crate::enc::mask(units[ui].address_size) };
     let ops = gen_expr(ch, &g, 0, true);
+    if ui == 1 {
+        cx.label("expression in the second unit");
+    }
     let in_list = ch.chance(100);
-    let referrer = 1 + ch.below(counts[0] - 1);
+    let referrer = 1 + ch.below(counts[ui] - 1);
     let mut expect = Expect::Ok;
     if in_list {
         // a location list: offsets of all entries are known when it is written
-        let v = units[0].version;
+        let v = units[ui].version;
         let has_base = ch.bool();
         if has_base {
-            units[0].entries[0].attrs.push((0x11, WVal::Address(0x4000)));
+            units[ui].entries[0].attrs.push((0x11, WVal::Address(0x4000)));
         }
         let loc = if v >= 5 || has_base { WLoc::OffsetPair(0x10, 0x20, ops.clone()) } else { WLoc::StartEnd(0x10, 0x20, ops.clone()) };
-        units[0].locs.push(vec![loc]);
-        units[0].entries[referrer].attrs.push((0x02, WVal::LocationListRef(0)));
+        units[ui].locs.push(vec![loc]);
+        units[ui].entries[referrer].attrs.push((0x02, WVal::LocationListRef(0)));
         cx.label("placement:location-list");
     } else {
-        units[0].entries[referrer].attrs.push((0x02, WVal::Exprloc(ops.clone())));
+        units[ui].entries[referrer].attrs.push((0x02, WVal::Exprloc(ops.clone())));
         // unit-local references must already have an offset where the attribute is sized
-        let order: Vec<usize> = units[0].preorder().iter().map(|x| x.0).collect();
+        let order: Vec<usize> = units[ui].preorder().iter().map(|x| x.0).collect();
         let p = |e: usize| order.iter().position(|x| *x == e).unwrap();
         let mut ut = Vec::new();
         unit_targets(&ops, true, &mut ut);
@@ -296,14 +304,14 @@ fn check_die_or_list(ch: &mut Choices, cx: &mut Ctx) -> R {
     if ops.iter().any(|o| matches!(o, WOp::ConstType(_, b) if b.len() > 255)) {
         expect = Expect::MayFail("typed constant longer than 255 bytes");
     }
-    if in_list && units[0].version < 5 && big_bytes(&ops) > 60000 {
+    if in_list && units[ui].version < 5 && big_bytes(&ops) > 60000 {
         expect = Expect::MayFail("expression longer than the 16-bit length of a pre-v5 location list entry");
     }
     if nontrivial(&ops) {
         cx.nt();
     }
     let m = WDwarf { big, units, dummies: Vec::new() };
-    cx.sample_with(|| format!("{} v{} {} expression {} on entry {} of unit 0 ({} entries, {} units) expect {:?}", if in_list { "location list" } else { "DIE attribute" }, m.units[0].version, if m.units[0].format64 { "dwarf64" } else { "dwarf32" }, show(&ops), referrer, counts[0], nunits, expect));
+    cx.sample_with(|| format!("{} v{} {} expression {} on entry {} of the expression unit ({} entries, {} units) expect {:?}", if in_list { "location list" } else { "DIE attribute" }, m.units[ui].version, if m.units[ui].format64 { "dwarf64" } else { "dwarf32" }, show(&ops), referrer, counts[ui], nunits, expect));
     check_written(&m, &expect, cx, "c15")?;
     // semantic clause, when it was written
     if expect == Expect::Ok {
@@ -326,18 +334,18 @@ fn check_die_or_list(ch: &mut Choices, cx: &mut Ctx) -> R {
                 uidx += 1;
             }
             // find the emitted bytes again
-            let h = dwarf.units().next().ok().flatten();
+            let h = { let mut it = dwarf.units(); let mut h = None; for _ in 0..=ui { h = it.next().ok().flatten(); } h };
             if let Some(h) = h {
                 if let Ok(unit) = dwarf.unit(h) {
                     let mut cur = unit.entries();
                     while let Ok(Some(e)) = cur.next_dfs() {
-                        if e.attr_value(gimli::DwAt(AT_MARKER)).and_then(|v| v.udata_value()) == Some(marker_of(0, referrer)) {
+                        if e.attr_value(gimli::DwAt(AT_MARKER)).and_then(|v| v.udata_value()) == Some(marker_of(ui, referrer)) {
                             if let Some(v) = e.attr_value(gimli::DW_AT_location) {
                                 if let Some(ex) = v.exprloc_value() {
-                                    check_semantics(ex.0.slice(), &ops, 0, &m.units[0], m.big, &pos)?;
+                                    check_semantics(ex.0.slice(), &ops, ui, &m.units[ui], m.big, &pos)?;
                                 } else if let Ok(Some(mut ll)) = dwarf.attr_locations(&unit, v) {
                                     if let Ok(Some(l)) = ll.next() {
-                                        check_semantics(l.data.0.slice(), &ops, 0, &m.units[0], m.big, &pos)?;
+                                        check_semantics(l.data.0.slice(), &ops, ui, &m.units[ui], m.big, &pos)?;
                                     }
                                 }
                             }
